@@ -103,6 +103,12 @@ def rule_atomic(ctx: Ctx) -> None:  # noqa: C901, PLR0915
         ctx.tri("1-atomic", aw, c, beside, not dirs, "the temporary file is created in the destination's directory",
                 f"`{norm(c)[:60]}` creates the temporary file in the system temp directory, not beside the destination: publishing it is a cross-device move (not atomic; a kill mid-copy leaves a torn file under the final name)",
                 "directory of the temporary file not recognised", key="tmp-sibling")
+    # the temporary file is opened with the caller's mode: an exclusive create ('x') turns the leftover of a killed writer into a
+    # permanent FileExistsError for every later writer of that file (the resumed run cannot complete)
+    excl = [c for c in ast.walk(aw.node) if isinstance(c, ast.Call) and isinstance(c.func, ast.Attribute) and c.func.attr == "open" and c.args
+            and any(isinstance(x, ast.Constant) and isinstance(x.value, str) and "x" in x.value and len(x.value) <= 3 for x in ast.walk(c.args[0]))]
+    ctx.add("1-atomic", aw, excl[0] if excl else aw.node, not excl, "the temporary file is opened with the caller's mode (an existing leftover is overwritten)" if not excl else
+            f"`{norm(excl[0])[:60]}` creates the temporary file exclusively: the leftover of a writer that was killed makes every later write of that file fail with FileExistsError - the resumed run cannot complete", key="tmp-not-exclusive")
     if not opens:
         pub = [c for c in ast.walk(aw.node) if isinstance(c, ast.Call) and dotted(c.func) in ("shutil.move", "shutil.copy", "shutil.copyfile", "shutil.copy2", "os.rename") and len(c.args) == 2 and norm(c.args[1]) == dest]
         if pub:
@@ -423,6 +429,26 @@ def rule_no_delete(ctx: Ctx) -> None:
     ctx.floor("4-no-delete", n_del, 1)
 
 
+def rule_record_deleted_with_folder(ctx: Ctx) -> None:
+    """run_info.json is what makes the cleanup=False gate compare at all (without it the gate lets everything pass).  It is removed
+    only together with the outputs, by the one rmtree of the folder: deleting it separately (first) opens a window in which a kill
+    leaves the outputs of the old run without the record that would have refused them - the next resume takes them for its own."""
+    P = ctx.prog
+    bad = []
+    n = 0
+    for fn in P.functions_in("pipefunc.map._run_info"):
+        for c in ast.walk(fn.node):
+            if isinstance(c, ast.Call) and isinstance(c.func, ast.Attribute) and c.func.attr in ("unlink", "rmdir", "rename") or (isinstance(c, ast.Call) and dotted(c.func) in ("os.remove", "os.unlink")):
+                n += 1
+                recv = c.func.value if isinstance(c.func, ast.Attribute) and c.func.attr in ("unlink", "rmdir", "rename") else (c.args[0] if c.args else c)
+                t = norm(Defs(fn).resolve(recv))
+                if "RunInfo.path(" in t or "run_info.json" in t or ".path(" in t:
+                    bad.append((fn, c))
+    ctx.add("4-no-delete", bad[0][0] if bad else "pipefunc.map._run_info", bad[0][1] if bad else "", not bad, "the run description is only ever removed together with its folder" if not bad else
+            f"`{norm(bad[0][1])[:60]}` removes run_info.json on its own: killed between this and the removal of the outputs, the folder holds the old run's outputs without the record the cleanup=False gate compares against - "
+            "the resumed run passes the gate and returns the old run's values", key="record-deleted-with-folder")
+
+
 def rule_propagate(ctx: Ctx) -> None:
     he = ctx.prog.func("pipefunc._utils.handle_error")
     ok = EXIT not in CFG(he.node).reachable_from(ENTRY)
@@ -600,7 +626,7 @@ def rule_loaded_is_marked(ctx: Ctx) -> None:
 
 
 def check(ctx: Ctx) -> None:
-    for rule in (rule_atomic, rule_guarded, rule_missing, rule_no_delete, rule_propagate, rule_gate_like_with_like, rule_gate_whole, rule_three_valued, rule_loaded_is_marked):
+    for rule in (rule_atomic, rule_guarded, rule_missing, rule_no_delete, rule_record_deleted_with_folder, rule_propagate, rule_gate_like_with_like, rule_gate_whole, rule_three_valued, rule_loaded_is_marked):
         ctx.run(rule)
 
 
